@@ -46,6 +46,9 @@ class OExp:
     def __neg__(self):
         return OExp(-self.e)
 
+    def sum(self, axis=None):
+        return OExp(np.sum(self.e, axis=axis))
+
 
 class OECons:
     """Constraint on a worst-case expectation:  sup_P E[expr] <= 0."""
@@ -182,6 +185,10 @@ class OracleDRO:
         return self.le(r, l)
 
     def eq(self, l, r):
+        if isinstance(l, OExp) or isinstance(r, OExp):
+            le_ = l.e if isinstance(l, OExp) else l
+            re_ = r.e if isinstance(r, OExp) else r
+            return OECons(OCons(osub(le_, re_), 'eq'))
         return OCons(osub(l, r), 'eq')
 
     def st(self, c, forall=None):
